@@ -65,16 +65,16 @@ func Check(r *core.Run) error {
 	if out, err := exec.Command("go", "version", "-m", pp.Bin).CombinedOutput(); err != nil || !strings.Contains(string(out), "-race=true") {
 		return fmt.Errorf("%w: the driver was not built with the race detector", tlc.ErrInfra)
 	}
-	rounds, procs := 2, []int{1, 4, 16}
+	rounds, procs, storm := 2, []int{1, 4, 16}, 2
 	if r.Thorough() {
-		rounds, procs = 8, []int{1, 2, 4, 8, 16}
+		rounds, procs, storm = 8, []int{1, 2, 4, 8, 16}, 12
 	}
 	out := filepath.Join(r.Scratch, "events.ndjson")
-	job, _ := json.Marshal(map[string]any{"calls": pp.Calls, "out": out, "mode": "conc", "goroutines": 32, "rounds": rounds, "procs": procs, "seed": r.Seed})
+	job, _ := json.Marshal(map[string]any{"calls": pp.Calls, "out": out, "mode": "conc", "goroutines": 32, "rounds": rounds, "procs": procs, "seed": r.Seed, "storm": storm})
 	jf := filepath.Join(r.Scratch, "conc.job")
 	os.WriteFile(jf, job, 0o644)
 	raceLog := filepath.Join(r.Scratch, "race")
-	o, err := gencode.Run(pp.Bin, []string{"GORACE=halt_on_error=0 log_path=" + raceLog}, jf)
+	o, err := gencode.Run(pp.Bin, []string{"GORACE=halt_on_error=0 exitcode=0 log_path=" + raceLog}, jf)
 	if err != nil {
 		return fmt.Errorf("%w: driver: %v\n%s", tlc.ErrInfra, err, o)
 	}
@@ -195,7 +195,7 @@ func raceSelfTest(r *core.Run) error {
 		return fmt.Errorf("%w: race self-test does not build: %v\n%s", tlc.ErrInfra, err, out)
 	}
 	log := filepath.Join(dir, "log")
-	gencode.Run(bin, []string{"GORACE=halt_on_error=0 log_path=" + log})
+	gencode.Run(bin, []string{"GORACE=halt_on_error=0 exitcode=0 log_path=" + log})
 	if ms, _ := filepath.Glob(log + "*"); len(ms) == 0 {
 		return fmt.Errorf("%w: race self-test: the race detector did not report a deliberate race", tlc.ErrInfra)
 	}
